@@ -642,7 +642,7 @@ def spec_table_alloc_2(ctx, make_exe):
 
 
 def spec_table_alloc_3(ctx, make_exe):
-    return _run_table(ctx, make_exe, [[1, 1, 1]], 3, 8, _post_table)
+    return _run_table(ctx, make_exe, [[1, 1, 1]], 2, 6, _post_table)
 
 
 def spec_table_alloc_span(ctx, make_exe):
@@ -1986,6 +1986,273 @@ def spec_link_footnotes(ctx, make_exe):
                         post(exe, s2, flag[0] == z3.BoolVal(bool(ia)), fe.name, "a reference is printed iff link footnotes are enabled")
     return {"functions": [fs.name, fe.name], "paths": total}
 
+# ----------------------------------------------------------------------------
+# SPEC: CSS identifier characters are folded to lower case (nmstart_char / nmchar_char)
+# ----------------------------------------------------------------------------
+
+def spec_ident_case_fold(ctx, make_exe):
+    import summaries
+    orig = summaries.summarize
+    total = 0
+    names = []
+    for fname, accepts_more in (("nmstart_char", False), ("nmchar_char", True)):
+        f = the(ctx.find(r"^%s$" % fname), "css::parser::" + fname)
+        names.append(f.name)
+        exe = make_exe(loop_bound=4)
+        st = State()
+        ch = exe.fresh("u32", "first_char")
+        st.pc += [z3.ULE(ch.e, z3.BitVecVal(0x10ffff, 32)), z3.Not(z3.And(z3.UGE(ch.e, 0xd800), z3.ULE(ch.e, 0xdfff)))]
+        exe.hints = [ch.e >= 0x21, ch.e <= 0x7e]
+
+        def summ(exe_, st_, f_, bb_, callee, args, dest_ty):
+            c = callee.strip()
+            if re.search(r"core::str::<impl str>::chars$", c):
+                return [(st_, VIter("vec", VVec([ch]), 0))]
+            if re.search(r"^<Chars<'_> as Iterator>::next$", c):
+                it = exe_.deref(st_, args[0])
+                if it.pos == 0:
+                    exe_.write_ref(st_, args[0], [], VIter("vec", it.src, 1), None)
+                    return [(st_, VAgg("Option::Some", "Some", [ch]))]
+                return [(st_, VAgg("Option::None", "None", []))]
+            if re.search(r"Chars::<'_>::as_str$", c):
+                return [(st_, VRef("val", VOpaque("str", "remainder")))]
+            if re.search(r"char::methods::<impl char>::to_ascii_lowercase$", c):
+                v = args[0]
+                while isinstance(v, VRef):
+                    v = exe_.deref(st_, v)
+                e = v.e
+                return [(st_, VInt(z3.If(z3.And(z3.UGE(e, 0x41), z3.ULE(e, 0x5a)), e | 0x20, e), 32, False))]
+            if re.search(r"^fail::<", c) or re.search(r"nom::error::Error::<&str>::new$", c):
+                if c.startswith("fail"):
+                    return [(st_, VAgg("Result::Err", "Err", [VOpaque("nom::Err", "fail")]))]
+                return [(st_, VOpaque("nom::error::Error", "err"))]
+            return orig(exe_, st_, f_, bb_, callee, args, dest_ty)
+        summaries.summarize = summ
+        try:
+            outs = exe.run(f.name, {1: VRef("val", VOpaque("str", "input"))}, st)
+        finally:
+            summaries.summarize = orig
+        total += len(outs)
+        is_alpha = z3.Or(z3.And(z3.UGE(ch.e, 0x41), z3.ULE(ch.e, 0x5a)), z3.And(z3.UGE(ch.e, 0x61), z3.ULE(ch.e, 0x7a)))
+        accepted = z3.Or(is_alpha, ch.e == 0x5f)
+        if accepts_more:
+            accepted = z3.Or(accepted, ch.e == 0x2d, z3.And(z3.UGE(ch.e, 0x30), z3.ULE(ch.e, 0x39)))
+        lower = z3.If(z3.And(z3.UGE(ch.e, 0x41), z3.ULE(ch.e, 0x5a)), ch.e + 0x20, ch.e)
+        n_ok = 0
+        for (s2, ret) in outs:
+            if isinstance(ret, VAgg) and ret.variant == "Ok":
+                n_ok += 1
+                tup = ret.fields[0]
+                out_c = tup.fields[1]
+                if not isinstance(out_c, VInt):
+                    raise Inconclusive("%s: returned character not recovered" % fname)
+                post(exe, s2, accepted, f.name, "%s accepts only identifier characters" % fname)
+                post(exe, s2, out_c.e == lower, f.name, "%s returns the character folded to lower case (identifiers are case-insensitive)" % fname)
+            elif isinstance(ret, VAgg) and ret.variant == "Err":
+                post(exe, s2, z3.Not(accepted), f.name, "%s rejects only non-identifier characters" % fname)
+            else:
+                raise Inconclusive("%s: result shape not recovered" % fname)
+        if n_ok == 0:
+            raise Inconclusive("%s: no accepting path" % fname)
+    return {"functions": names, "paths": total}
+
+# ----------------------------------------------------------------------------
+# SPEC: only nodes without content are called shallow-empty (empty links / containers are dropped on that answer)
+# ----------------------------------------------------------------------------
+
+def spec_shallow_empty_sound(ctx, make_exe):
+    f = the([g for g in ctx.find(r"::is_shallow_empty$") if g.args and "RenderNode" in g.args[0][1]], "RenderNode::is_shallow_empty")
+    one = ["Container", "Em", "Strong", "Strikeout", "Code", "Block", "ListItem", "Div", "BlockQuote", "Dl", "Dt", "Dd", "Ul", "Sup"]
+    import summaries
+    orig = summaries.summarize
+    total = 0
+    for kind in one + ["Link", "Ol", "Header", "Table", "TableCell", "TableBody", "TableRow"]:
+        for k in (0, 1, 2):
+            if kind in ("Table", "TableCell", "TableBody", "TableRow") and k != 1:
+                continue
+            exe = make_exe(loop_bound=6)
+            st = State()
+            kids = VVec([VOpaque("RenderNode", "child%d" % i) for i in range(k)])
+            empt = [exe.fresh("bool", "child%d.shallow_empty" % i) for i in range(k)]
+            if kind in one:
+                info = VAgg("RenderNodeInfo::" + kind, kind, [kids])
+            elif kind == "Link":
+                info = VAgg("RenderNodeInfo::Link", kind, [VOpaque("String", "href"), kids])
+            elif kind == "Ol":
+                info = VAgg("RenderNodeInfo::Ol", kind, [exe.fresh("i64", "start"), kids])
+            elif kind == "Header":
+                info = VAgg("RenderNodeInfo::Header", kind, [exe.fresh("usize", "level"), kids])
+            elif kind == "TableRow":
+                info = VAgg("RenderNodeInfo::TableRow", kind, [VOpaque("RenderTableRow", "row"), exe.fresh("bool", "vertical")])
+            else:
+                info = VAgg("RenderNodeInfo::" + kind, kind, [VOpaque(kind, "payload")])
+            node = _agg(ctx, "RenderNode", info=info)
+
+            def summ(exe_, st_, f_, bb_, callee, args, dest_ty, empt=empt):
+                c = callee.strip()
+                if re.search(r"RenderNode::is_shallow_empty$", c):
+                    v = args[0]
+                    while isinstance(v, VRef):
+                        v = exe_.deref(st_, v)
+                    if isinstance(v, VOpaque) and v.name.startswith("child"):
+                        return [(st_, empt[int(v.name[5:])])]
+                    return None
+                return orig(exe_, st_, f_, bb_, callee, args, dest_ty)
+            summaries.summarize = summ
+            try:
+                outs = exe.run(f.name, {1: VRef("val", node)}, st)
+            finally:
+                summaries.summarize = orig
+            total += len(outs)
+            for (s2, ret) in outs:
+                if not isinstance(ret, VBool):
+                    raise Inconclusive("result of is_shallow_empty not recovered")
+                if kind in ("Table", "TableCell", "TableBody", "TableRow"):
+                    post(exe, s2, z3.Not(ret.e), f.name, "a %s is never dropped as empty" % kind)
+                else:
+                    alle = z3.And([e.e for e in empt]) if empt else z3.BoolVal(True)
+                    post(exe, s2, z3.Implies(ret.e, alle), f.name,
+                         "%s with %d children: called empty only if every child is empty (content is never dropped)" % (kind, k))
+                    if k == 0:
+                        post(exe, s2, ret.e, f.name, "%s without children is empty" % kind)
+    return {"function": f.name, "paths": total}
+
+# ----------------------------------------------------------------------------
+# SPEC: a declaration value ends at ';' and at the block's closing '}' (the final semicolon is optional)
+# ----------------------------------------------------------------------------
+
+def spec_value_token_end(ctx, make_exe):
+    f = the(ctx.find(r"^parse_token_not_semicolon$"), "css::parser::parse_token_not_semicolon")
+    exe = make_exe(loop_bound=4)
+    st = State()
+    names = ctx.enums.get("parser::Token") or ctx.enums.get("Token")
+    if not names or "Semicolon" not in names or "CloseBrace" not in names:
+        raise Inconclusive("Token enum not recovered")
+    tok = VOpaque("css::parser::Token<'_>", "token")
+    import summaries
+    orig = summaries.summarize
+
+    def summ(exe_, st_, f_, bb_, callee, args, dest_ty):
+        c = callee.strip()
+        if re.search(r"^parse_token$", c):
+            ok = st_.clone()
+            err = st_.clone()
+            return [(ok, VAgg("Result::Ok", "Ok", [VAgg("tuple", None, [VRef("val", VOpaque("str", "rest")), tok])])),
+                    (err, VAgg("Result::Err", "Err", [VOpaque("nom::Err", "tokerr")]))]
+        if re.search(r"^<parser::Token<'_> as PartialEq>::eq$", c):
+            a = args[0]
+            b = args[1]
+            while isinstance(a, VRef):
+                a = exe_.deref(st_, a)
+            while isinstance(b, VRef):
+                b = exe_.deref(st_, b)
+            # derived PartialEq: equal discriminants, and (for variants with a payload) equal payloads
+            if isinstance(b, VAgg) and b.variant in names and not b.fields:
+                return [(st_, VBool(exe_.discriminant(a).e == exe_.discriminant(b).e))]
+            if isinstance(a, VAgg) and a.variant in names and not a.fields:
+                return [(st_, VBool(exe_.discriminant(a).e == exe_.discriminant(b).e))]
+            return None
+        if re.search(r"^fail::<", c):
+            return [(st_, VAgg("Result::Err", "Err", [VOpaque("nom::Err", "fail")]))]
+        return orig(exe_, st_, f_, bb_, callee, args, dest_ty)
+    summaries.summarize = summ
+    try:
+        outs = exe.run(f.name, {1: VRef("val", VOpaque("str", "input"))}, st)
+    finally:
+        summaries.summarize = orig
+    d = exe.discriminant(tok).e
+    n_ok = 0
+    for (s2, ret) in outs:
+        if isinstance(ret, VAgg) and ret.variant == "Ok":
+            n_ok += 1
+            post(exe, s2, d != names.index("Semicolon"), f.name, "a value token is never the ';' that ends the declaration")
+            post(exe, s2, d != names.index("CloseBrace"), f.name,
+                 "a value token is never the '}' that ends the block (the final semicolon is optional)")
+        elif not (isinstance(ret, VAgg) and ret.variant == "Err") and not isinstance(ret, VOpaque):
+            raise Inconclusive("result shape not recovered")
+    if n_ok == 0:
+        raise Inconclusive("no accepting path")
+    return {"function": f.name, "paths": len(outs)}
+
+# ----------------------------------------------------------------------------
+# SPEC: every line of a sub-rendering receives its prefix (append_subrender's per-line closure)
+# ----------------------------------------------------------------------------
+
+def spec_subrender_prefix_lines(ctx, make_exe):
+    f = the(ctx.find(r"::append_subrender::\{closure#0\}$"), "the per-line closure of SubRenderer::append_subrender")
+    import summaries
+    orig = summaries.summarize
+    total = 0
+    for kind in ("Text", "Line"):
+        exe = make_exe(loop_bound=4)
+        st = State()
+        pe = exe.fresh("bool", "prefix.is_empty")
+        le = exe.fresh("bool", "line.is_empty")
+        tline = VOpaque("TaggedLine", "tline")
+        if kind == "Text":
+            line = VAgg("RenderLine::Text", "Text", [tline])
+        else:
+            line = VAgg("RenderLine::Line", "Line", [VOpaque("BorderHoriz", "border")])
+        prefix = VRef("val", VOpaque("str", "prefix"))
+        env = VAgg("closure", None, [VRef("val", VOpaque("Vec<Annotation>", "tagvec"))])
+
+        def is_prefix(exe_, st_, v):
+            while isinstance(v, VRef):
+                v = exe_.deref(st_, v)
+            return isinstance(v, VOpaque) and v.name == "prefix"
+
+        def summ(exe_, st_, f_, bb_, callee, args, dest_ty):
+            c = callee.strip()
+            if re.search(r"core::str::<impl str>::is_empty$", c):
+                return [(st_, pe)] if is_prefix(exe_, st_, args[0]) else None
+            if re.search(r"TaggedLine::<.*>::is_empty$", c):
+                return [(st_, le)]
+            if re.search(r"<str as ToString>::to_string$", c):
+                return [(st_, VOpaque("String", "prefix_string" if is_prefix(exe_, st_, args[0]) else "other_string"))]
+            if re.search(r"BorderHoriz::<.*>::to_string$", c):
+                return [(st_, VOpaque("String", "border_string"))]
+            if re.search(r"as Clone>::clone$", c):
+                return [(st_, VOpaque("Vec<Annotation>", "tag_copy"))]
+            if re.search(r"TaggedLine::<.*>::new$", c):
+                return [(st_, VOpaque("TaggedLine", "fresh_line"))]
+            if re.search(r"TaggedLine::<.*>::(insert_front|push)$", c):
+                return [(st_, VUnit())]
+            return orig(exe_, st_, f_, bb_, callee, args, dest_ty)
+        summaries.summarize = summ
+        try:
+            outs = exe.run(f.name, {1: VRef("val", env), 2: VAgg("tuple", None, [line, prefix])}, st)
+        finally:
+            summaries.summarize = orig
+        total += len(outs)
+
+        def sname(arg):
+            # name of the string inside a TaggedString / TaggedLineElement::Str argument
+            v = arg
+            for _ in range(3):
+                if isinstance(v, VAgg) and v.variant == "Str":
+                    v = v.fields[0]
+                elif isinstance(v, VAgg) and v.names and "s" in v.names:
+                    v = v.fields[v.names.index("s")]
+                elif isinstance(v, VAgg) and v.fields:
+                    v = v.fields[0]
+            return getattr(v, "name", None)
+        for (s2, ret) in outs:
+            ins = [c for c in s2.calls if re.search(r"TaggedLine::<.*>::insert_front$", c[0])]
+            pushes = [c for c in s2.calls if re.search(r"TaggedLine::<.*>::push$", c[0])]
+            post(exe, s2, z3.BoolVal(isinstance(ret, VAgg) and ret.variant == "Text"), f.name, "the result is a text line")
+            if kind == "Text":
+                ok_shape = len(ins) <= 1 and not pushes and all(sname(c[1][1]) == "prefix_string" for c in ins)
+                post(exe, s2, z3.BoolVal(ok_shape), f.name, "a text line gets at most one insertion, of the prefix, at its front")
+                post(exe, s2, z3.BoolVal(bool(ins)) == z3.Not(pe.e), f.name,
+                     "every text line of the sub-rendering, empty or not, receives a non-empty prefix")
+                kept = isinstance(ret, VAgg) and ret.fields and getattr(ret.fields[0], "name", None) == "tline"
+                post(exe, s2, z3.BoolVal(bool(kept)), f.name, "the line itself is kept")
+            else:
+                got = [sname(c[1][1]) for c in pushes]
+                post(exe, s2, z3.BoolVal(got == ["prefix_string", "border_string"] and not ins), f.name,
+                     "a border line becomes prefix followed by the border (got %s)" % got)
+    return {"function": f.name, "paths": total}
+
 
 ALL = [
     Spec("table_col_width", ["C06", "C02", "C01"], spec_table_col_width,
@@ -2102,6 +2369,28 @@ ALL = [
          bounds="two declarations of any kind (all Decl variants and their value enums symbolic); zero-ness of a length an arbitrary boolean",
          assumptions=["declarations are opaque values with symbolic enum discriminants; floating point lengths are opaque, `== 0.0` is an arbitrary boolean"],
          replay=lambda fd, vals, info: {"harness": "m_display_none", "values": [[0]]}),
+    Spec("ident_case_fold", ["C17"], spec_ident_case_fold,
+         functions=["css::parser::nmstart_char", "css::parser::nmchar_char"],
+         bounds="any first character (any Unicode scalar value), any remainder",
+         assumptions=["str::chars / Chars::next / Chars::as_str / char::to_ascii_lowercase follow their std contracts"],
+         replay=lambda fd, vals, info: {"harness": "m_css_case", "values": [[0]]}),
+    Spec("shallow_empty_sound", ["C03", "C13", "C08"], spec_shallow_empty_sound,
+         functions=["RenderNode::is_shallow_empty"],
+         bounds="every node kind with children, 0-2 children of arbitrary emptiness",
+         assumptions=["the text arms (str::trim().len() == 0) are string code and not checked",
+                      "a recursive call on a child returns that child's (arbitrary) emptiness"],
+         replay=lambda fd, vals, info: {"harness": "m_shallow_empty", "values": [[0]]}),
+    Spec("value_token_end", ["C17"], spec_value_token_end,
+         functions=["css::parser::parse_token_not_semicolon"],
+         bounds="any token returned by parse_token (all 23 kinds), any input",
+         assumptions=["parse_token returns an arbitrary token or an error", "derived PartialEq on Token compares discriminants for unit variants"],
+         replay=lambda fd, vals, info: {"harness": "m_css_final_semicolon", "values": [[0]]}),
+    Spec("subrender_prefix_lines", ["C07", "C16"], spec_subrender_prefix_lines,
+         functions=["SubRenderer::append_subrender::{closure#0}"],
+         bounds="one line of either kind; emptiness of the line and of the prefix arbitrary",
+         assumptions=["TaggedLine::{insert_front,push,new} and the string conversions are observed, not executed (t4_* decide insert_front on the real code)",
+                      "the pairing of lines with prefixes (zip) is std"],
+         replay=lambda fd, vals, info: {"harness": "m_prefix_blank_lines", "values": [[0]]}),
     Spec("link_footnotes", ["C08"], spec_link_footnotes,
          functions=["TextRenderer::start_link", "TextRenderer::end_link"],
          bounds="0-2 links already recorded; footnote flag symbolic",
@@ -2122,7 +2411,7 @@ ALL = [
          assumptions=["as table_alloc_2col"], replay=replay_table_alloc),
     Spec("table_alloc_3col", ["C06", "C02", "C01"], spec_table_alloc_3, tier="thorough",
          functions=["render_table_tree (whole function)"],
-         bounds="1 row x 3 columns; cell size <= 3, table width <= 8", assumptions=["as table_alloc_2col"], replay=replay_table_alloc),
+         bounds="1 row x 3 columns; cell size <= 2, table width <= 6", assumptions=["as table_alloc_2col"], replay=replay_table_alloc),
     Spec("table_alloc_colspan", ["C06", "C03", "C01"], spec_table_alloc_span, tier="thorough",
          functions=["render_table_tree (whole function)"],
          bounds="2 rows over 2 columns, first row is one colspan=2 cell; cell size <= 3, table width <= 6",
